@@ -23,7 +23,7 @@ from okdmr.dmrlib.hytera.pdu.hrnp import HRNP, HRNPOpcodes
 EXPLANATION = ("C04: every received word is symbolic; on each decode path the 'ok' indicator is compared with an independent truth predicate over the received bits. "
                "The in-band 'check field == 0 means generate' convention of the constructors is recorded as a known finding per PDU (see known_findings.json).")
 BOUNDS = {"quick": "all 2^20 slot-type words, all 2^16 EMB words, all 2^96 data-header / PI-header words, all 2^36 short-LC words, all confirmed rate-1/2, 3/4, 1 blocks (96/144/192 bits, "
-                   "plain and last), all 12-octet HRNP frames; library-generated PDUs of every kind (built from every decodable field combination) parse back with the indicator true",
+                   "plain and last), all 12-octet HRNP frames; every CRC-protected kind also as the SECOND of two independent received words; library-generated PDUs of every kind (built from every decodable field combination) parse back with the indicator true",
           "thorough": "same as quick"}
 OUTSIDE = "HRNP frames with an HDAP payload (covered structurally under C12); corruption beyond the codes' guaranteed detection capability"
 ASSUMPTIONS = ["CRC conventions as in C05; CRC-9 of a last block covers data | CRC-32 | DBSN (as in the captured vectors of the repository's test_crc9)",
@@ -141,6 +141,30 @@ def h_crc_pdu(hx, kind):
     hx.cover("decoded")
 
 
+def h_crc_second(hx, kind):
+    """the indicator of a received word must not depend on what the library parsed before: a first word is decoded (and serialised), then a
+    second, independent word of the same kind - indicator <=> truth for the second one (a result cache keyed on part of the PDU shows here)"""
+    k = KINDS[kind]
+    b1 = hx.ba(k.nbits, "b")
+    st1, x1 = hx.guard(k.decode, b1.copy())
+    if st1 == "ok":
+        hx.guard(x1.as_bits)
+    b2 = hx.ba(k.nbits, "c")
+    st, x = hx.guard(k.decode, b2.copy())
+    if st == "exc":
+        hx.prove(isinstance(x, DOCUMENTED), "%s (second word): decode fails only with a documented error, got %s" % (kind, type(x).__name__))
+        hx.cover("error")
+        return
+    attr, truth, zero = truth_for(kind, b2, x)
+    known = {SENTINEL + ":" + kind.split("-")[0]: zero} if zero is not None else {}
+    lo, hi = CHECK_POS["Rate" if kind.startswith("Rate") else kind]
+    yb = x.as_bits()
+    same = AND(yb[:lo] == b2[:lo], yb[hi:] == b2[hi:]) if len(yb) == len(b2) else 0
+    known[NORMALISED + ":" + kind.split("-")[0]] = NOT(same)
+    hx.prove(IFF(getattr(x, attr), truth), "%s: %s of a word received AFTER another word was parsed <=> its own check field equals the check value of its own bits" % (kind, attr), known=known)
+    hx.cover("decoded")
+
+
 def ones_complement(words):
     s = 0
     for w in words:
@@ -207,4 +231,7 @@ def cases(tier, seed):
     for k in CRC_KINDS:
         out.append(Case("crc-" + k, "h_crc_pdu", dict(kind=k), covers=["decoded"], budget_s=600, opts=dict(max_paths=3000, max_violations=6),
                         bounds="%d symbolic bits" % KINDS[k].nbits))
+    for k in CRC_KINDS:
+        out.append(Case("crc-second-" + k, "h_crc_second", dict(kind=k), covers=["decoded"], budget_s=600, opts=dict(max_paths=6000, max_violations=6),
+                        bounds="two independent received words of %d symbolic bits each, parsed one after the other" % KINDS[k].nbits))
     return out
